@@ -357,11 +357,43 @@ def shared_default_sites(model, fn):
     return out
 
 
+def _expand_loop_names(model, fn, effects):
+    """context[name].attr = ... inside `for name in ('a', 'b')`: one effect per constant."""
+    import re
+    loops = {}
+    for n in M.walk_no_nested(fn.node):
+        if not isinstance(n, ast.For):
+            continue
+        try:
+            items = model.eval_const(fn, n.iter)
+        except Exception:
+            continue
+        if not isinstance(items, (list, tuple)) or not items or len(items) > 40:
+            continue
+        if isinstance(n.target, ast.Name) and all(isinstance(x, str) for x in items):
+            loops[n.target.id] = list(items)
+        elif isinstance(n.target, (ast.Tuple, ast.List)):
+            for i, t in enumerate(n.target.elts):
+                if isinstance(t, ast.Name) and all(isinstance(x, (tuple, list)) and len(x) == len(n.target.elts) and isinstance(x[i], str) for x in items):
+                    loops[t.id] = [x[i] for x in items]
+    if not loops:
+        return effects
+    out = []
+    for e in effects:
+        mo = re.search(r'context\[(\w+)\]', e.target)
+        if mo and mo.group(1) in loops:
+            for v in loops[mo.group(1)]:
+                out.append(Effect(e.fn, e.node, e.kind, e.target.replace('context[%s]' % mo.group(1), 'context[%r]' % v), e.detail))
+        else:
+            out.append(e)
+    return out
+
+
 def scan(model, include=lambda mod: True):
     out = []
     pm = param_mutators(model)
     for fn in all_functions(model, include):
-        out.extend(scan_function(model, fn))
+        out.extend(_expand_loop_names(model, fn, scan_function(model, fn)))
         out.extend(shared_default_sites(model, fn))
         for n in M.walk_no_nested(fn.node):
             if isinstance(n, ast.Call):
